@@ -658,11 +658,11 @@ theorem drain_pl (n : Nat) (r : Rcv) (s : Nat) : (drain n r s).pl = r.pl ∧ (dr
     · exact ⟨rfl, rfl⟩
     · exact ih _
 
-theorem readOn_append (r : Rcv) (s s' m : Nat) (st : List Msg) :
-    ({ r with store := st, rlog := r.rlog ++ [(s, m)] } : Rcv).readOn s' =
-      if s = s' then r.readOn s' ++ [m] else r.readOn s' := by
+theorem readOn_append (r : Rcv) (s' : Nat) (c : Msg) (st : List Msg) :
+    ({ r with store := st, rlog := r.rlog ++ [c] } : Rcv).readOn s' =
+      if c.2.1 = s' then r.readOn s' ++ [c.1] else r.readOn s' := by
   simp only [Rcv.readOn, List.filter_append, List.filter_cons, List.filter_nil]
-  by_cases h : s = s' <;> simp [h]
+  by_cases h : c.2.1 = s' <;> simp [h]
 
 theorem drain_readOn_other (n : Nat) (r : Rcv) (s s' : Nat) (h : s ≠ s') : (drain n r s).readOn s' = r.readOn s' := by
   induction n generalizing r with
@@ -671,7 +671,10 @@ theorem drain_readOn_other (n : Nat) (r : Rcv) (s s' : Nat) (h : s ≠ s') : (dr
     simp only [drain]
     split
     · rfl
-    · rw [ih, readOn_append, if_neg h]
+    · rename_i c hf
+      have hcp := List.find?_some hf
+      simp only [Bool.and_eq_true, beq_iff_eq] at hcp
+      rw [ih, readOn_append, if_neg (by rw [hcp.1]; exact h)]
 
 theorem drain_store_sub (n : Nat) (r : Rcv) (s : Nat) : ∀ c ∈ (drain n r s).store, c ∈ r.store := by
   induction n generalizing r with
